@@ -35,6 +35,8 @@ META = {
     "distinct = distinct tuple / history; non-trivial = the request reaches a handler the application defines for that method (i.e. with valid "
     "credentials it is not a 405), or it is the WebSocket upgrade, or it is a rotation history",
     "assumptions": [
+        "keep-alive histories: two requests share one TCP connection (same stream and context objects, a fresh per-request connection object, as tornado's "
+        "HTTP1ServerConnection does); each request is judged by the credentials it carries itself",
         "password rotation histories: random token, two plaintext passwords, argon2 hashes of two passwords and a second hash of the first, up to 2 (quick) / 3 "
         "(thorough) rotations; a session cookie issued before a rotation stays a valid session cookie and is not judged",
         "the static asset route tornado adds for static_path and unknown URLs (404) are outside the claim: they carry no flow data and change no state",
@@ -338,13 +340,43 @@ def build(s: Sut, case):
 # ---------------------------------------------------------------------------
 
 
-def run_case(case, t: Tally, verbose=False):
+def run_conn_history(hist, t: Tally, verbose=False):
+    """several requests on ONE keep-alive TCP connection (same stream and context objects, a fresh per-request
+    connection object, as tornado's HTTP1ServerConnection does); every request is judged by its own credentials"""
+    reqs = hist["conn_history"]
+    s = sut(reqs[0].get("pw", "random"))
+    tcp = s.wd.new_tcp_connection()
+    label = "fresh"
+    for i, case in enumerate(reqs):
+        if _DRIVERS.get(case.get("pw", "random")) is not s:
+            raise HarnessError("the application was rebuilt in the middle of a connection history: %r" % (hist,))
+        run_case(case, t, verbose=verbose, tcp=tcp, conn=label, replay_case=hist)
+        label = "reused-after-" + ("valid" if case["cred"] in CRED_VALID else "invalid")
+
+
+def gen_conn_histories(thorough):
+    out = []
+    rts = routes(False)
+    firsts = [{"url": "/flows", "handler": "Flows", "method": "GET", "cred": c, "xsrf": "absent", "sfs": "absent", "pw": "random"}
+              for c in CRED_VALID + ["none"]]
+    seconds_cred = ["none", "bearer-wrong", "cookie-bad-signature"] + (["token-wrong", "cookie-wrong-value", "bearer-truncated"] if thorough else [])
+    for first in firsts:
+        for url, handler in rts:
+            for method in (METHODS if thorough else ["GET", "POST", "PUT", "DELETE"]):
+                for cred in seconds_cred:
+                    second = {"url": url, "handler": handler, "method": method, "cred": cred, "xsrf": "absent" if method in SAFE else "valid-header",
+                              "sfs": "absent", "pw": "random"}
+                    out.append({"conn_history": [first, second]})
+    return out
+
+
+def run_case(case, t: Tally, verbose=False, tcp=None, conn="fresh", replay_case=None):
     pw = case.get("pw", "random")
     s = sut(pw)
     uri, headers, body = build(s, case)
     crashed = None
     try:
-        r = s.wd.request(case["method"], uri, headers, body)
+        r = s.wd.request(case["method"], uri, headers, body, tcp=tcp)
     except KeyboardInterrupt:
         raise
     except BaseException as e:
@@ -370,25 +402,26 @@ def run_case(case, t: Tally, verbose=False):
     else:
         result = "processed"
     feats = {"route": case["handler"], "method": case["method"], "method_class": "unsafe" if unsafe else "safe", "cred": case["cred"],
-             "xsrf": case["xsrf"], "sfs": case["sfs"], "pw": pw, "result": result}
-    is_ws = case["handler"] == "ClientConnection" and case["method"] == "GET"
+             "xsrf": case["xsrf"], "sfs": case["sfs"], "pw": pw, "result": result, "conn": conn}
+    rcase = replay_case or case
+    is_ws =case["handler"] == "ClientConnection" and case["method"] == "GET"
     t.outcome([case["handler"], case["method"], valid, case["xsrf"] in XSRF_VALID, case["sfs"], status, bool(changed)])
 
     nontrivial = True
     if not valid:
         ok = status in (403, 405) and obs["crashed"] is None
-        t.judge("unauthenticated_is_403", ok, feats, case, "status 403 (405 for a method the route does not implement)", obs)
-        t.judge("no_state_change", not changed, feats, case, "state snapshot unchanged", obs)
-        t.judge("no_flow_data_in_body", not leaks, feats, case, "no flow data (marker, flow ids) in the reply", obs)
+        t.judge("unauthenticated_is_403", ok, feats, rcase,"status 403 (405 for a method the route does not implement)", obs)
+        t.judge("no_state_change", not changed, feats, rcase,"state snapshot unchanged", obs)
+        t.judge("no_flow_data_in_body", not leaks, feats, rcase,"no flow data (marker, flow ids) in the reply", obs)
         if is_ws:
-            t.judge("websocket_refused", status == 403 and not (r is not None and r.detached) and "ws" not in changed, feats, case, "403, no upgrade, not registered", obs)
+            t.judge("websocket_refused", status == 403 and not (r is not None and r.detached) and "ws" not in changed, feats, rcase,"403, no upgrade, not registered", obs)
         nontrivial = status != 405
     else:
         xs_ok = case["xsrf"] in XSRF_VALID
         if unsafe and not xs_ok:
-            t.judge("state_changing_needs_valid_xsrf", not changed and status is not None and status >= 400, feats, case, "refused (status >= 400), state unchanged", obs)
+            t.judge("state_changing_needs_valid_xsrf", not changed and status is not None and status >= 400, feats, rcase,"refused (status >= 400), state unchanged", obs)
         elif unsafe and case["sfs"] == "cross-site":
-            t.judge("cross_site_refused", not changed and status is not None and status >= 400, feats, case, "refused (status >= 400), state unchanged", obs)
+            t.judge("cross_site_refused", not changed and status is not None and status >= 400, feats, rcase,"refused (status >= 400), state unchanged", obs)
         elif unsafe and case["sfs"] in ("same-site",):
             t.note("same-site %s: %s" % (case["method"], "refused" if (status or 0) >= 400 and not changed else "processed"))
         else:
@@ -402,7 +435,7 @@ def run_case(case, t: Tally, verbose=False):
             if obs["crashed"]:
                 t.note("authorised %s %s crashed the delegate: %s" % (case["method"], case["handler"], str(obs["crashed"])[:60]))
         nontrivial = status != 405
-    t.case(case if (nontrivial and case["cred"] not in ("none", "bearer-valid") and unsafe) else None, nontrivial=nontrivial, key=case)
+    t.case(case if (nontrivial and case["cred"] not in ("none", "bearer-valid") and unsafe) else None, nontrivial=nontrivial, key=[case, conn])
     if changed or (r is not None and r.detached):
         drop(pw)  # rebuild the application and its state for the next case
 
@@ -472,6 +505,7 @@ def rot_request(s: Sut, method, url, handler, form, password):
 
 
 def run_rotation(case, t: Tally, verbose=False):
+    rcase = case
     drop("random")
     s = sut("random")
     try:
@@ -514,11 +548,11 @@ def run_rotation(case, t: Tally, verbose=False):
                         obs = {"status": st, "changed": changed, "leaks": leaks, "body": r.body[:100], "crashed": r.crashed, "history": steps[: i + 1]}
                         if verbose:
                             print("  after %r: old %s password via %s on %s %s -> %s %s" % (steps[: i + 1], old_mode, form, method, url, st, "CHANGED " + str(changed) if changed else ""))
-                        t.judge("unauthenticated_is_403", st in (403, 405) and r.crashed is None, feats, case, "an earlier password is refused with 403 after the rotation", obs)
-                        t.judge("no_state_change", not changed, feats, case, "state snapshot unchanged", obs)
-                        t.judge("no_flow_data_in_body", not leaks, feats, case, "no flow data in the reply", obs)
+                        t.judge("unauthenticated_is_403", st in (403, 405) and r.crashed is None, feats, rcase,"an earlier password is refused with 403 after the rotation", obs)
+                        t.judge("no_state_change", not changed, feats, rcase,"state snapshot unchanged", obs)
+                        t.judge("no_flow_data_in_body", not leaks, feats, rcase,"no flow data in the reply", obs)
                         if handler == "ClientConnection":
-                            t.judge("websocket_refused", st == 403 and not r.detached, feats, case, "403, no upgrade", obs)
+                            t.judge("websocket_refused", st == 403 and not r.detached, feats, rcase,"403, no upgrade", obs)
                         t.outcome(["rotation", old_mode, cur_mode, form, handler, st, bool(changed)])
                         t.add("rotation_old_password_requests")
                         if changed or r.detached:
@@ -540,6 +574,8 @@ def chunk_fn(chunk):
         for c in chunk:
             if "rotation" in c:
                 run_rotation(c, t)
+            elif "conn_history" in c:
+                run_conn_history(c, t)
             else:
                 run_case(c, t)
     finally:
@@ -631,7 +667,12 @@ def run(ctx):
             "per_step": "current password via bearer+token accepted; every earlier password x {bearer, token} x %r must be refused" % ([m + " " + u for m, u, _ in ROT_ROUTES],),
         }
         ctx.log("%d password rotation histories" % len(rots))
-        par.pmap_tally(chunk_fn, cases + rots, ctx.tally, nchunks=nproc * 2, nproc=nproc)
+        conns = gen_conn_histories(thorough)
+        ctx.bounds["keep_alive_connection_histories"] = {
+            "count": len(conns), "shape": "2 requests on one TCP connection (shared stream/context): first an authorised GET /flows (bearer, token, cookie) or an "
+            "unauthenticated one, then every url x {GET, POST, PUT, DELETE} x {none, bearer-wrong, cookie-bad-signature} judged by its own credentials"}
+        ctx.log("%d keep-alive connection histories" % len(conns))
+        par.pmap_tally(chunk_fn, cases + rots + conns, ctx.tally, nchunks=nproc * 2, nproc=nproc)
         t = ctx.tally
         ctx.log("counters: %s" % dict(sorted(t.extra.items())))
         for k in ("authorised_request_changed_state", "authorised_request_returned_flow_data", "authorised_websocket_upgraded",
@@ -646,6 +687,8 @@ def replay(case, t: Tally, verbose=False):
     try:
         if isinstance(case, dict) and "rotation" in case:
             run_rotation(case, t, verbose=verbose)
+        elif isinstance(case, dict) and "conn_history" in case:
+            run_conn_history(case, t, verbose=verbose)
         else:
             run_case(case, t, verbose=verbose)
     finally:
